@@ -744,7 +744,12 @@ Fixpoint signer_loop (E : env) (qname : name) (resp : msg) (parentDS : list rr) 
   end.
 
 (* Resolver.answer (resp arrives from setTags with AD clear) *)
-Definition validate_answer (E : env) (qname : name) (qtype : N) (cd : bool) (resp : msg)
+(* bailiwick (767eb6f): answer records owned outside the answering zone are dropped first *)
+Definition bailiwick (zone : option name) (resp : msg) : msg :=
+  mk_msg (m_id resp) (m_qname resp) (m_qtype resp) (m_rcode resp)
+         (match zone with Some z => filter_zone (m_ans resp) z | None => m_ans resp end)
+         (m_ns resp) (m_ad resp).
+Definition validate_answer_core (E : env) (qname : name) (qtype : N) (cd : bool) (resp : msg)
            (parentDS : list rr) (zone : option name) : outcome :=
   let tgt := if qtype =? T_CNAME then None else
              match dname_target resp with None => None | Some t => Some (e_dname E t qtype cd) end in
@@ -787,6 +792,10 @@ Definition validate_answer (E : env) (qname : name) (qtype : N) (cd : bool) (res
           end
       end
   end.
+
+Definition validate_answer (E : env) (qname : name) (qtype : N) (cd : bool) (resp : msg)
+           (parentDS : list rr) (zone : option name) : outcome :=
+  validate_answer_core E qname qtype cd (bailiwick zone resp) parentDS zone.
 
 (* Resolver.authority: negative answers and authority-only responses *)
 Definition validate_negative (E : env) (qname : name) (qtype : N) (cd : bool) (resp : msg)
